@@ -198,49 +198,75 @@ Qed.
 Lemma inst_instant t : inst t = instant t.
 Proof. reflexivity. Qed.
 
-Lemma upd_last_max last st :
-  inst (upd_last last st) =
-  match st with
-  | None => inst last
-  | Some s => Z.max (Z.max (inst last) (inst (s_start s))) (inst (s_end s))
-  end.
+Lemma upd_time_max last t : inst (upd_time last t) = Z.max (inst last) (inst t).
 Proof.
-  destruct st as [s|]; [|reflexivity]. unfold upd_last, t_after.
-  destruct (Z.ltb (inst last) (inst (s_start s))) eqn:E1.
-  - apply Z.ltb_lt in E1.
-    destruct (Z.ltb (inst (s_start s)) (inst (s_end s))) eqn:E2.
-    + apply Z.ltb_lt in E2. lia.
-    + apply Z.ltb_ge in E2. lia.
-  - apply Z.ltb_ge in E1.
-    destruct (Z.ltb (inst last) (inst (s_end s))) eqn:E2.
-    + apply Z.ltb_lt in E2. lia.
-    + apply Z.ltb_ge in E2. lia.
+  unfold upd_time, t_after. destruct (Z.ltb (inst last) (inst t)) eqn:E.
+  - apply Z.ltb_lt in E. lia.
+  - apply Z.ltb_ge in E. lia.
 Qed.
 
-Definition times_of (l : list (option state)) : list Z :=
-  flat_map (fun st => match st with Some s => [instant (s_start s); instant (s_end s)] | None => [] end) l.
+(* a step that only ever raises [last] to one of the times of its argument; folding such a step over a
+   list yields the latest of the initial value and all the times *)
+Definition raises {X} (step : Z -> X -> Z) (times : X -> list Z) : Prop :=
+  forall a x, (inst a <= inst (step a x))%Z /\
+              (forall t, In t (times x) -> (t <= inst (step a x))%Z) /\
+              (inst (step a x) = inst a \/ In (inst (step a x)) (times x)).
 
-Lemma fold_upd_last l : forall a,
-  let m := inst (fold_left upd_last l a) in
-  (inst a <= m)%Z /\ (forall t, In t (times_of l) -> (t <= m)%Z) /\ (m = inst a \/ In m (times_of l)).
+Lemma fold_raises {X} (step : Z -> X -> Z) (times : X -> list Z) :
+  raises step times -> raises (fun a l => fold_left step l a) (flat_map times).
 Proof.
-  induction l as [|st l IH]; intros a; cbn [fold_left].
-  - simpl. repeat split; [lia|contradiction|now left].
-  - specialize (IH (upd_last a st)). cbv zeta in IH. destruct IH as [I1 [I2 I3]].
-    rewrite upd_last_max in I1, I3. cbv zeta.
-    set (m := inst (fold_left upd_last l (upd_last a st))) in *.
-    destruct st as [s|]; cbn [times_of flat_map] in *; fold (times_of l).
-    + change instant with inst in *. repeat split.
-      * lia.
-      * intros t Ht. cbn [app In] in Ht. destruct Ht as [<-|[<-|Ht]]; [lia|lia|now apply I2].
-      * destruct I3 as [I3|I3]; [|right; right; right; exact I3].
-        cbn [app In].
-        destruct (Z.max_spec (Z.max (inst a) (inst (s_start s))) (inst (s_end s))) as [[_ E]|[_ E]];
-          [right; right; left; lia|].
-        destruct (Z.max_spec (inst a) (inst (s_start s))) as [[_ E']|[_ E']];
-          [right; left; lia|left; lia].
-    + repeat split; [exact I1|exact I2|exact I3].
+  intros H a l. revert a. induction l as [|x l IH]; intros a; cbn [fold_left flat_map].
+  - repeat split; [lia|contradiction|now left].
+  - destruct (IH (step a x)) as [I1 [I2 I3]]. destruct (H a x) as [S1 [S2 S3]].
+    repeat split.
+    + lia.
+    + intros t Ht. apply in_app_or in Ht as [Ht|Ht]; [specialize (S2 _ Ht); lia|now apply I2].
+    + destruct I3 as [I3|I3]; [|right; apply in_or_app; now right].
+      rewrite I3. destruct S3 as [S3|S3]; [now left|right; apply in_or_app; now left].
 Qed.
+
+Definition state_times (st : option state) : list Z :=
+  match st with Some s => [instant (s_start s); instant (s_end s)] | None => [] end.
+Definition attempt_times (a : attempt) : list Z := [instant (at_start a); instant (at_end a)].
+Definition row_times (r : row) : list Z :=
+  state_times (row_state r) ++ flat_map attempt_times (row_attempts r).
+
+Lemma two_times_raise a t1 t2 :
+  let m := inst (upd_time (upd_time a t1) t2) in
+  (inst a <= m)%Z /\ (forall t, In t [instant t1; instant t2] -> (t <= m)%Z) /\
+  (m = inst a \/ In m [instant t1; instant t2]).
+Proof.
+  cbv zeta. rewrite !upd_time_max. change instant with inst. repeat split.
+  - lia.
+  - intros t [<-|[<-|[]]]; lia.
+  - cbn [In].
+    destruct (Z.max_spec (Z.max (inst a) (inst t1)) (inst t2)) as [[_ E]|[_ E]]; [right; right; left; lia|].
+    destruct (Z.max_spec (inst a) (inst t1)) as [[_ E']|[_ E']]; [right; left; lia|left; lia].
+Qed.
+
+Lemma upd_last_raises : raises upd_last state_times.
+Proof.
+  intros a [s|]; cbn [upd_last state_times].
+  - apply two_times_raise.
+  - repeat split; [lia|contradiction|now left].
+Qed.
+
+Lemma upd_attempt_raises : raises upd_attempt attempt_times.
+Proof. intros a x. apply two_times_raise. Qed.
+
+Lemma upd_row_raises : raises upd_row row_times.
+Proof.
+  intros a r. unfold upd_row, row_times.
+  destruct (upd_last_raises a (row_state r)) as [S1 [S2 S3]].
+  destruct (fold_raises _ _ upd_attempt_raises (upd_last a (row_state r)) (row_attempts r)) as [I1 [I2 I3]].
+  repeat split.
+  - lia.
+  - intros t Ht. apply in_app_or in Ht as [Ht|Ht]; [specialize (S2 _ Ht); lia|now apply I2].
+  - destruct I3 as [I3|I3]; [|right; apply in_or_app; now right].
+    rewrite I3. destruct S3 as [S3|S3]; [now left|right; apply in_or_app; now left].
+Qed.
+
+Definition times_of (l : list (option state)) : list Z := flat_map state_times l.
 
 (* ================= E. the states of a plan: specification order vs walk order ================= *)
 
@@ -301,16 +327,77 @@ Proof.
   split; intros [st [Hst Ht]]; exists st; (split; [now apply H|exact Ht]).
 Qed.
 
+(* the attempts of a plan: specification order vs walk order *)
+Lemma atts_orows_action l :
+  flat_map row_attempts (orows rows_action l) = flat_map action_attempts (olist l).
+Proof.
+  destruct l as [l|]; [|reflexivity]. cbn [orows olist].
+  induction l as [|[a|] l IH]; cbn [flat_map oflat]; [reflexivity| |exact IH].
+  rewrite flat_map_app, IH. cbn [app flat_map rows_action row_attempts].
+  unfold action_attempts. destruct (a_attempts a); cbn [row_attempts app]; rewrite ?app_nil_r; reflexivity.
+Qed.
+
+Lemma atts_rows_checks c : flat_map row_attempts (rows_checks c) = checks_attempts c.
+Proof. unfold rows_checks, checks_attempts. cbn [flat_map row_attempts app]. apply atts_orows_action. Qed.
+
+Lemma atts_rows_seq q : flat_map row_attempts (rows_seq q) = seq_attempts q.
+Proof. unfold rows_seq, seq_attempts. cbn [flat_map row_attempts app]. apply atts_orows_action. Qed.
+
+Lemma atts_oflat_checks o :
+  flat_map row_attempts (oflat rows_checks o) = flat_map checks_attempts (oone o).
+Proof. destruct o; cbn; [rewrite app_nil_r; apply atts_rows_checks|reflexivity]. Qed.
+
+Lemma in_atts_orows {A} (rf : A -> list row) (sf : A -> list attempt) l x :
+  (forall y z, In z (flat_map row_attempts (rf y)) <-> In z (sf y)) ->
+  In x (flat_map row_attempts (orows rf l)) <-> In x (flat_map sf (olist l)).
+Proof.
+  intros H. destruct l as [l|]; [|reflexivity]. cbn [orows olist].
+  induction l as [|[y|] l IH]; cbn [flat_map oflat app]; [reflexivity| |exact IH].
+  rewrite flat_map_app, !in_app_iff, IH, H. reflexivity.
+Qed.
+
+Lemma in_block_attempts b x :
+  In x (flat_map row_attempts (rows_block b)) <-> In x (block_attempts b).
+Proof.
+  unfold rows_block, block_attempts, block_groups. cbn [flat_map row_attempts app].
+  rewrite !flat_map_app, !in_app_iff, !atts_oflat_checks.
+  rewrite (in_atts_orows rows_seq seq_attempts) by (intros y z; now rewrite atts_rows_seq). tauto.
+Qed.
+
+Lemma in_plan_attempts p x :
+  In x (flat_map row_attempts (rows_plan p)) <-> In x (plan_attempts p).
+Proof.
+  unfold rows_plan, plan_attempts, plan_groups. cbn [flat_map row_attempts app].
+  rewrite !flat_map_app, !in_app_iff, !atts_oflat_checks.
+  rewrite (in_atts_orows rows_block block_attempts) by (intros y z; apply in_block_attempts). tauto.
+Qed.
+
+Lemma in_row_times l t :
+  In t (flat_map row_times l) <->
+  In t (times_of (map row_state l)) \/ In t (flat_map attempt_times (flat_map row_attempts l)).
+Proof.
+  induction l as [|r l IH]; cbn [flat_map map times_of]; [tauto|].
+  unfold row_times at 1. fold (times_of (map row_state l)).
+  rewrite flat_map_app, !in_app_iff, IH. tauto.
+Qed.
+
+Lemma in_plan_times p t : In t (flat_map row_times (rows_plan p)) <-> In t (plan_times p).
+Proof.
+  rewrite in_row_times. unfold plan_times. rewrite in_app_iff.
+  fold state_times. fold (times_of (plan_states p)). fold attempt_times.
+  rewrite (in_times_of _ _ (in_plan_states p) t).
+  rewrite !in_flat_map. split; (intros [H|[a [Ha Ht]]]; [now left|right; exists a; split; [|exact Ht]]);
+    now apply in_plan_attempts.
+Qed.
+
 Lemma last_update_latest p : latest_activity p (inst (last_update p)).
 Proof.
-  unfold latest_activity, last_update, plan_times.
-  destruct (fold_upd_last (map row_state (rows_plan p)) 0%Z) as [I1 [I2 I3]].
-  fold (times_of (plan_states p)).
-  assert (E := in_times_of _ _ (in_plan_states p)).
+  unfold latest_activity, last_update.
+  destruct (fold_raises _ _ upd_row_raises 0%Z (rows_plan p)) as [I1 [I2 I3]].
   repeat split.
   - exact I1.
-  - intros t Ht. apply I2. now apply E.
-  - destruct I3 as [I3|I3]; [left; exact I3|right; now apply E].
+  - intros t Ht. apply I2. now apply in_plan_times.
+  - destruct I3 as [I3|I3]; [left; exact I3|right; now apply in_plan_times].
 Qed.
 
 Lemma latest_activity_unique p m1 m2 : latest_activity p m1 -> latest_activity p m2 -> m1 = m2.
